@@ -94,6 +94,16 @@ func (x *Exec) libModel(st *State, call *ast.CallExpr, fn *types.Func, key strin
 		x.vc.declConst("unix_epoch_offset", x.vc.intSort())
 		t := fmt.Sprintf("(+ unix_epoch_offset (* %s 1000000000) %s)", args[0].T, args[1].T)
 		return []Val{{T: t, Sort: x.vc.intSort(), GoT: x.resultTypes(call)[0]}}, true
+	case "context.Context.Err":
+		// non-nil once a receive from this context's Done() channel completed on this path; else unknown
+		rt := x.resultTypes(call)[0]
+		v := x.freshVal("ctxerr", rt)
+		if recv != nil {
+			setSort := fmt.Sprintf("(Array %s Bool)", recv.Sort)
+			cur := x.lookupHeap(st, "G:$ctxdone", setSort)
+			x.assume(st, implies(fmt.Sprintf("(select %s %s)", cur.T, recv.T), not(eq(v.T, x.vc.nilTerm(v.Sort)))))
+		}
+		return []Val{v}, true
 	case "github.com/ipfs/go-cid.Cid.Equals":
 		return mkb(eq(recv.T, args[0].T)), true
 	case "github.com/ipfs/go-cid.Cid.Defined":
